@@ -20,6 +20,7 @@ import tempfile
 from vlib.core import run_cmd, VERIF
 from vlib.build import BuildError
 from tools.gen import stream as gen_stream
+from tools.gen import procstat as gen_procstat
 from tools.gen.csrc import ExtractError
 
 sys.path.insert(0, os.path.join(VERIF, "harness", "C16"))
@@ -29,11 +30,16 @@ THEOREMS = ["JanetModel.Props.C16." + t for t in (
     "write_delivers_all_in_order", "sendto_delivers_prefix", "read_at_most_n", "chunk_exact_unless_eof",
     "read_returns_nil_at_eof", "nil_consumes_nothing", "close_wakes_pending_op", "close_wakes_pending",
     "every_op_completes_or_errors", "every_op_completes_or_errors_partial", "second_reader_orphans_first",
-    "second_writer_orphans_first")]
+    "second_writer_orphans_first",
+    # session 3: subprocess exit status (bit-level decoder of proc_get_status)
+    "exit_status_exact", "exit_status_injective", "stop_and_continue_words", "merged_or_unshifted_arm_is_wrong")]
+PROC_CURRENT = ["JanetModel.Proc.Current." + t for t in (
+    "current_source_status_decoder", "current_source_waitpid_options", "exit_status_exact_current")]
 CURRENT = ["JanetModel.Stream.Current." + t for t in (
     "current_source_guards_read_slot", "current_source_guards_write_slot", "current_source_registers_dgram_for_write",
     "every_op_completes_or_errors_current")]
-WRAP = "-Wl," + ",".join("--wrap=" + s for s in "read write send recv sendto recvfrom epoll_ctl epoll_wait".split())
+WRAP = "-Wl," + ",".join("--wrap=" + s for s in ("read write send recv sendto recvfrom epoll_ctl epoll_wait waitpid pipe close dup fcntl posix_spawn posix_spawnp "
+                                                "posix_spawn_file_actions_adddup2 posix_spawn_file_actions_addclose").split())
 QUOTA = {"quick": {"errinj": 30, "stream": 110, "shared-seq": 40, "close": 60, "contend": 24, "dgram": 36, "proc": 30},
          "thorough": {"errinj": 300, "stream": 1500, "shared-seq": 500, "close": 600, "contend": 200, "dgram": 400, "proc": 300}}
 
@@ -240,6 +246,60 @@ def correspond(ctx, exe, corr):
     return sum(1 for x in out if x is not None), diffs, state_mismatch, kinds
 
 
+# ------------------------------------------------------------------------------------------------ exit-status decoder
+def terminated_words():
+    """every status word waitpid(pid, &status, 0) can deliver for a terminated child on Linux -> (word, how, expected report)"""
+    out = [(c << 8, "exit(%d)" % c, c) for c in range(256)]
+    for sg in range(1, 127):
+        out.append((sg, "killed by signal %d" % sg, 128 + sg))
+        out.append((sg | 0x80, "killed by signal %d, core dumped" % sg, 128 + sg))
+    return out
+
+
+def status_correspond(ctx, drv):
+    """compiled proc_get_status (wrapper TU harness/C16/oswrap.c, interposed waitpid) on all 2^16 status words + seeded
+    32-bit words  vs  the Lean evaluation of the regenerated expression trees; and, independently of the model, the compiled
+    decoder against the expected report for every terminated-child word.
+    -> (compared, correspondence diffs, direct failures [(sig, desc)], words on which the regenerated trees miss the expected report)"""
+    exe = ctx.build.harness("asan", "c16os", [os.path.join(VERIF, "harness/C16/oswrap.c")], extra_ld=["-Wl,--wrap=waitpid"])
+    nrand = 20000 if ctx.tier == "quick" else 400000
+    rc, out, err = run_cmd([exe, "status", str(ctx.seed), str(nrand)], timeout=300, env=dict(os.environ, ASAN_OPTIONS="detect_leaks=0"))
+    text = out.decode(errors="replace")
+    if rc != 0 or "DONE" not in text:
+        return 0, [{"why": "harness c16os failed: rc=%s %s" % (rc, err.decode(errors="replace")[-300:])}], [], []
+    impl = []
+    for line in text.splitlines():
+        t = line.split()
+        if len(t) == 2 and t[0].lstrip("-").isdigit():
+            impl.append((int(t[0]), t[1]))
+    byword = dict(impl)
+    fails = []
+    for w, how, want in terminated_words():
+        if byword.get(w) != str(want):
+            fails.append(("exit-status:word %d" % w, "proc_get_status on the wait-status word 0x%04x (child %s) returns %s, expected %d"
+                          % (w, how, byword.get(w), want)))
+    diffs, predicted = [], []
+    n = 0
+    if drv:
+        mo = ctx.model(["X %d" % w for w, _ in impl], exe=drv)
+        for (w, r), line in zip(impl, mo):
+            m = re.match(r"gen=(\S+) model=(\S+)$", line)
+            n += 1
+            if not m:
+                diffs.append({"word": w, "why": "unparsable driver output %r" % line})
+            elif m.group(1) != r:
+                diffs.append({"word": w, "impl": r, "regenerated_trees": m.group(1), "why": "compiled proc_get_status and the Lean evaluation of the `cc -E` expression trees differ"})
+        gen = {}
+        for (w, r), line in zip(impl, mo):
+            m = re.match(r"gen=(\S+) model=(\S+)$", line)
+            if m:
+                gen[w] = m.group(1)
+        for w, how, want in terminated_words():
+            if gen.get(w) != str(want):
+                predicted.append({"word": w, "child": how, "expected": want, "regenerated_trees_give": gen.get(w)})
+    return n, diffs, fails, predicted
+
+
 # ------------------------------------------------------------------------------------------------ exit status / redirection
 def exec_checks(ctx, exe):
     fails = []
@@ -283,6 +343,58 @@ def exec_checks(ctx, exe):
                 fails.append(("exit-status:%s %s" % k, "os/execute / os/proc-wait: case %s %s reported %r, expected %r" % (k[0], k[1], got.get(k), v)))
         if rc != 0 or b"DONE" not in out:
             fails.append(("exit-status:script", "exec.janet did not finish: rc=%s %s" % (rc, err.decode(errors="replace")[-300:])))
+        # every terminated-child status word through the real reaping path (interposed waitpid substitutes the word)
+        rc, out, err = run_cmd([exe, os.path.join(VERIF, "harness/C16/exec.janet"), d, "inject"], timeout=300, env=env, cwd=d)
+        got = {}
+        for line in out.decode(errors="replace").splitlines():
+            t = line.split(" ", 2)
+            if len(t) == 3 and t[0].startswith("inject-"):
+                got[(t[0], t[1])] = t[2]
+        exp = {}
+        for c in range(256):
+            exp[("inject-exit", str(c))] = "ok %d rc %d" % (c, c)
+        for sg in range(1, 127):
+            exp[("inject-sig", str(sg))] = "ok %d rc %d" % (128 + sg, 128 + sg)
+            exp[("inject-sigcore", str(sg))] = "ok %d rc %d" % (128 + sg, 128 + sg)
+        for c in (1, 255, 137, 139, 254):
+            exp[("inject-x", str(c))] = "err command failed with non-zero exit code %d" % c
+        exp[("inject-x", "0")] = "ok 0"
+        for c in (0, 3, 143):
+            exp[("inject-close", str(c))] = "ok %d rc %d" % (c, c)
+        exp[("inject-twice", "0")] = "ok 42 then err cannot wait twice on a process rc 42"
+        n += len(exp)
+        for k, v in exp.items():
+            if got.get(k) != v:
+                how = {"inject-exit": "exit(%s)", "inject-sig": "killed by signal %s", "inject-sigcore": "killed by signal %s (core dumped)"}.get(k[0], k[0] + " %s") % k[1]
+                fails.append(("exit-status:%s %s" % k, "child %s: os/proc-wait / :return-code reported %r, expected %r (status word substituted in waitpid, "
+                              "decoded by proc_get_status -> janet_proc_wait_cb)" % (how, got.get(k), v)))
+        if rc != 0 or b"DONE" not in out:
+            fails.append(("exit-status:script", "exec.janet inject did not finish: rc=%s %s" % (rc, err.decode(errors="replace")[-300:])))
+        # redirections whose source is a standard descriptor of the parent
+        rc, out, err = run_cmd([exe, os.path.join(VERIF, "harness/C16/exec.janet"), d, "stdredir"], input=b"INPUTG\n", timeout=60, env=env, cwd=d)
+        so, se = out.decode(errors="replace"), err.decode(errors="replace")
+        seg = {m.group(1): (m.group(2), m.group(3)) for m in re.finditer(r"stdredir-begin (\w)\n(.*?)stdredir-end \1 ([^\n]*)\n", so, re.S)}
+        want = {"A": ("outA\nerrA\nrcA=0\n", "0", [], "{:err stdout}"),
+                "B": ("", "0", ["outB", "errB", "rcB=0"], "{:out stderr}"),
+                "C": ("errC\nrcC=0\n", "0 file=outC|", [], "{:out file :err stdout}"),
+                "D": ("errD\nrcD=0\n", "0 piped=outD|", [], "os/spawn {:out :pipe :err stdout}"),
+                "F": ("errF\nrcF=0\n", "0", ["outF"], "{:out stderr :err stdout}"),
+                "G": ("INPUTG\nerrG\n", "0", [], "{:in stdin :err stdout}"),
+                "H": ("outH\nerrH\nrcH=0\n", "0", [], "{:out stdout :err stdout}")}
+        n += len(want)
+        for tag, (wout, wres, werr, what) in want.items():
+            g = seg.get(tag)
+            bad = None
+            if g is None:
+                bad = "case did not run"
+            elif g[0] != wout or g[1] != wres:
+                bad = "on the parent's stdout %r, result %r; expected %r, %r" % (g[0], g[1], wout, wres)
+            elif any(se.count(w + "\n") != 1 for w in werr):
+                bad = "the parent's stderr does not carry %r exactly once: %r" % (werr, se[-200:])
+            if bad:
+                fails.append(("spawn-redirect-std-source", "os/execute / os/spawn with %s (a redirection whose source is a standard descriptor): %s -- "
+                              "the child lost or mis-wired a standard descriptor" % (what, bad)))
+                break
         # redirection to / from files
         for sz_in, sz_err in ((0, 0), (1, 1), (65536, 65537), (300000, 70000)):
             a = scen.payload_bytes(ctx.seed, 900 + sz_in, sz_in)
@@ -340,10 +452,18 @@ def run(ctx, only=None):
     except BuildError as e:
         ctx.violation("build-failed", {"kind": "build", "error": str(e)}, found=False, what="tree does not build")
         return ctx.finish("proof", {"evaluations": 0, "distinct_nontrivial": 0})
+    pfacts = None
+    try:
+        ctx.gen("ProcStat.lean", gen_procstat.render(ctx.build.tree))
+        pfacts = gen_procstat.extract(ctx.build.tree)
+    except ExtractError as e:
+        broken.append("translator tools/gen/procstat.py (shape of os.c changed): %s" % e)
+        ctx.broken.append(broken[-1])
     # (B,C)
     broken += ctx.obligations("JanetModel.Props.C16", THEOREMS)
     cur_broken = ctx.obligations("JanetModel.Stream.Current", CURRENT)
     broken += cur_broken
+    broken += ctx.obligations("JanetModel.Proc.Current", PROC_CURRENT)
     if not quick:
         ok, log = ctx.leanchecker("JanetModel.Props.C16")
         if not ok:
@@ -407,6 +527,21 @@ def run(ctx, only=None):
         if sig not in reported:
             reported.add(sig)
             ctx.violation(sig, {"kind": "exec", "failure": desc}, what=desc)
+    # exit-status decoder: compiled C on all 2^16 words vs regenerated trees (D) and vs the expected reports (E)
+    try:
+        nstat, sdiffs, sfails, predicted = status_correspond(ctx, drv)
+    except Exception as e:   # noqa: BLE001
+        nstat, sdiffs, sfails, predicted = 0, [{"why": "status correspondence failed: %s: %s" % (type(e).__name__, e)}], [], []
+    for sig, desc in sfails[:3]:
+        if sig not in reported:
+            reported.add(sig)
+            ctx.violation(sig, {"kind": "status-word", "failure": desc, "predicted_by_model": predicted[:5]}, what=desc)
+    if sdiffs:
+        broken.append("correspondence proc_get_status / regenerated expression trees on %d of %d status words, first: %r" % (len(sdiffs), nstat, sdiffs[0]))
+        if not ctx.nviol:
+            ctx.broken.append(broken[-1])
+    if predicted:
+        broken.append("regenerated proc_get_status misreports %d terminated-child status words, first: %r" % (len(predicted), predicted[0]))
     # (D)
     try:
         ncorr, diffs, smis, mkinds = correspond(ctx, drv, traces)
@@ -424,7 +559,7 @@ def run(ctx, only=None):
     elif broken:
         ctx.say("broken obligations (failing input reported above): " + "; ".join(broken)[:600])
     cov = {
-        "evaluations": nops + nexec + ncorr,
+        "evaluations": nops + nexec + ncorr + nstat,
         "distinct_nontrivial": len(results) + nexec,
         "rule": "one evaluation = one janet-level stream operation judged by the direct oracle, one exit-status / redirection case, or one "
                 "operation whose intercepted syscall sequence was compared with the Lean model; non-trivial = distinct generated scenario",
@@ -437,10 +572,14 @@ def run(ctx, only=None):
         "intercepted_syscalls": faults["calls"], "faults_injected": {k: faults[k] for k in ("eagain", "short", "eintr", "err")},
         "kernel_own": {"eagain": faults["real_eagain"], "partial_transfers": faults["real_partial"]}, "epoll_rearms": faults["rearm"],
         "correspondence_ops": ncorr, "correspondence_diffs": len(diffs), "model_outcomes": mkinds,
+        "status_words_compared": nstat, "status_word_diffs": len(sdiffs),
+        "status_decoder_regenerated": (pfacts or {}).get("branches_c"), "waitpid_options": (pfacts or {}).get("waitpidOptions"),
         "source_facts": facts, "broken": broken[:6],
     }
     return ctx.finish("proof", cov, assumptions=[
-        "kernel, epoll, process reaping and exit-status decoding are outside the model: tested by the direct oracle only",
+        "kernel, epoll and process reaping are outside the model: tested by the direct oracle only",
+        "exit status: the Linux layout of the wait-status word (exit: code<<8; fatal signal: sig | 0x80*core) is the specification the "
+        "decoder is proved against; that waitpid(pid,&st,0) delivers only such words for a terminated child is the kernel's contract",
         "an injected EAGAIN / short write is followed by EPOLL_CTL_MOD so that the edge-triggered registration sees a fresh readiness edge "
         "(models a kernel whose buffer state changed right after the call)",
         "liveness is stated as 'a waiting fiber is always registered in its slot and close leaves nobody waiting'; that the kernel "
